@@ -122,7 +122,11 @@ func VerifC12(args []string) {
 		// built-in operators (and the custom ones again) against the reference applications;
 		// with FastEvaluation and failing fetches the permitted double fetch changes which
 		// applications happen, so that combination is left to the operator-side check above
-		if !(opts[2] == '1' && mode == "f") {
+		eff := opts
+		if opts == "dflt" {
+			eff = "1111"
+		}
+		if !(eff[2] == '1' && mode == "f") {
 			vfReach("builtin-events")
 			vfAssert(len(builtin) == len(refApps), "OP_EXEC events are not exactly the operator applications of the evaluation under "+opts)
 			for i := range builtin {
